@@ -230,7 +230,9 @@ def specChunk (senv : SEnv) : Nat → SType → Val → Option Chunk
       | .int i => if 0 ≤ i ∧ i ≤ n then some (natToBits (bitWidth n) i.toNat, []) else none
       | _ => none)
     | .unary => (match v with
-      | .int i => if 0 ≤ i then some (List.replicate i.toNat true ++ [false], []) else none
+      -- `n` ones and a zero; a chunk that cannot fit ANY cell (1023 bits) is not a serialisation at all — decided
+      -- arithmetically, so that no list of 2^63 ones is ever built
+      | .int i => if 0 ≤ i ∧ i.toNat + 1 ≤ 1023 then some (List.replicate i.toNat true ++ [false], []) else none
       | _ => none)
     | .varUint n => (match v with
       | .int i =>
